@@ -4,6 +4,7 @@ import Pypika.Param
 import Pypika.Ident
 import Pypika.Crit
 import Pypika.Build
+import Pypika.Guards
 /-!
 # JSON → model values (driver side only; no theorem depends on this file)
 -/
